@@ -688,7 +688,15 @@ func (ex *Exec) loopEnv(fr *Frame, b *ssa.BasicBlock, st *State, old *State) *Sp
 		}
 	}
 	// stack-allocated locals (struct variables whose fields are addressed) that were not referenced yet
-	for _, al := range fn.Locals {
+	var allocs []*ssa.Alloc
+	allocs = append(allocs, fn.Locals...)
+	for v := range fr.regs {
+		if al, ok := v.(*ssa.Alloc); ok && al.Heap {
+			allocs = append(allocs, al)
+		}
+	}
+	sort.Slice(allocs, func(i, j int) bool { return allocs[i].Pos() < allocs[j].Pos() })
+	for _, al := range allocs {
 		if al.Comment == "" {
 			continue
 		}
